@@ -97,9 +97,9 @@ def _run(rec, sim, case, M, L, binary, decl, path, srv, V):
         # an oversize POST runs into known finding K1 (C15's subject)
         pending = sim.poll(h) if path == 'post' else None
         sim.quiesce()
-        if srv == 'H' and decl in ('none', 'lt'):
+        if srv == 'H' and decl == 'lt':
             return      # not expressible as one HTTP/1.1 request
-        if srv == 'N' and decl != 'eq':
+        if srv == 'N' and decl not in ('eq', 'none'):
             # (tornado hands a request to its handler once the whole declared
             # body has arrived: one that declares more than it sends is never
             # dispatched at all)
@@ -311,12 +311,13 @@ def all_cases(tier, seed):
                         decls = ['eq', 'lt', 'gt', 'none'] if \
                             path.startswith('post') else ['eq']
                         if srv == 'H':
-                            # (HTTP/1.1 has no body without a length, and
-                            # bytes beyond the declared length are the next
-                            # pipelined request, not part of this body)
-                            decls = [d for d in decls if d in ('eq', 'gt')]
+                            # (bytes beyond the declared length are the
+                            # next pipelined request, not part of this body;
+                            # no length at all is a chunked upload)
+                            decls = [d for d in decls
+                                     if d in ('eq', 'gt', 'none')]
                         if srv == 'N':
-                            decls = ['eq']
+                            decls = [d for d in decls if d in ('eq', 'none')]
                         for d in decls:
                             cases.append({'kind': 'size', 'M': M, 'L': L,
                                           'binary': binary, 'decl': d,
